@@ -417,7 +417,16 @@ class SymClient(Client):
                     if isinstance(r0, (ClassRef, FuncRef)):
                         return r0
                 except (NotConst, SyntaxError):
-                    pass
+                    # a term made in another module's namespace (``cls`` bound to ``pdu.X`` by the caller of a classmethod):
+                    # ``<package module>.<name>`` means the same everywhere
+                    try:
+                        e0 = ast.parse(t, mode='eval').body
+                        if isinstance(e0, ast.Attribute) and isinstance(e0.value, ast.Name) and e0.value.id in self.repo.modules:
+                            r0 = self.repo.resolve_name(e0.attr, self.repo.modules[e0.value.id])
+                            if isinstance(r0, (ClassRef, FuncRef)):
+                                return r0
+                    except (NotConst, SyntaxError):
+                        pass
                 d0 = self._dispatch_targets(t)
                 if d0 is not None:
                     return d0
